@@ -2116,6 +2116,14 @@ template< size_t L>
       size_t count) noexcept
 {
 
+   // the text to insert may be (a part of) this string itself, which is about
+   // to be moved: insert a copy of the text then
+   if ((str >= &mString[ 0]) && (str <= &mString[ L]))
+   {
+      const std::string  copy( str, count);
+      return insert( index, copy.c_str(), count);
+   } // end if
+
    if (index < mLength)
    {
       if (count <= L - mLength)
@@ -2736,6 +2744,13 @@ template< size_t L> inline
    // appended, like std::string does it
    if (pos1 > mLength)
       return *this;
+   // the new text may be (a part of) this string itself, which is about to be
+   // moved: use a copy of the text then
+   if ((str >= &mString[ 0]) && (str <= &mString[ L]))
+   {
+      const std::string  copy( &str[ pos2], count2);
+      return replaceImpl( pos1, count1, copy.c_str(), 0, count2);
+   } // end if
    size_t  copy_len = count2;
    if (count1 >= mLength - pos1)
    {
